@@ -117,7 +117,8 @@ Inductive err :=
 | ESym (n : name) (aspkg : bool)   (* symbol n already defined [as a package] *)
 | EExt (m : name) (t : Z)          (* extension with tag t for message m already defined *)
 | EExtPkg                          (* extendee does not match package *)
-| ENoPkg.                          (* missing package symbols *)
+| ENoPkg                           (* missing package symbols *)
+| EInvalid.                        (* reporter.ErrInvalidSource: errors were reported, the reporter returned nil *)
 Inductive res := Ok | Err (e : err).
 Inductive pkres := PkgOk (child : option name) | PkgErr (e : err).
 
@@ -336,6 +337,197 @@ Fixpoint observe_with (imp : file -> table -> table * res) (T : table) (q : quer
   | QAfter o q' => observe_with imp (fst (do_op_with imp T o)) q'
   end.
 Definition observe := observe_with import.
+
+(* ------------------------------------------------------------------------------------------ *)
+(* Part 2b: the same operations with the handler made explicit.  reporter.Handler calls its
+   reporter for every error; a fail-fast reporter (reporter.NewHandler(nil)) returns the error,
+   which aborts the operation (HAbort: this is what part 2 models); a collecting reporter
+   returns nil, the operation goes on, and Handler.Error() is ErrInvalidSource from then on
+   (HCollect).  The handler state is the list of the errors reported so far. *)
+
+Inductive hmode := HAbort | HCollect.
+Definition hstate := list err.
+
+(* Handler.HandleErrorf: (new state, what the call returns) *)
+Definition handle (m : hmode) (hs : hstate) (e : err) : hstate * option err :=
+  match m with
+  | HAbort => match hs with
+              | [] => ([e], Some e)
+              | e0 :: _ => (hs, Some e0)      (* already aborted: the first error again, nothing reported *)
+              end
+  | HCollect => (hs ++ [e], None)
+  end.
+
+(* Handler.Error() *)
+Definition handler_error (m : hmode) (hs : hstate) : option err :=
+  match hs with
+  | [] => None
+  | e0 :: _ => match m with HAbort => Some e0 | HCollect => Some EInvalid end
+  end.
+
+Definition import_packageH (m : hmode) (hs : hstate) (T : table) (cur : name) (owner : N) (p : name)
+  : table * hstate * pkres :=
+  let nd := get_node T cur in
+  match sym_find p (n_symbols nd) with
+  | Some e =>
+    if e_pkg e then (T, hs, PkgOk (if mem_name p (n_children nd) then Some p else None))
+    else match handle m hs (ESym p (e_pkg e)) with
+         | (hs', Some er) => (T, hs', PkgErr er)
+         | (hs', None) => (T, hs', PkgOk None)       (* return nil, nil *)
+         end
+  | None =>
+    let nd' := add_child (add_symbol nd p (mkEntry owner true)) p in
+    (set_node (set_node T cur nd') p empty_node, hs, PkgOk (Some p))
+  end.
+
+Fixpoint import_packages_loopH (m : hmode) (hs : hstate) (T : table) (owner : N) (cur : name) (ps : list name)
+  : table * hstate * pkres :=
+  match ps with
+  | [] => (T, hs, PkgOk (Some cur))
+  | p :: r =>
+    match import_packageH m hs T cur owner p with
+    | (T', hs', PkgOk (Some c)) => import_packages_loopH m hs' T' owner c r
+    | other => other
+    end
+  end.
+Definition import_packagesH (m : hmode) (hs : hstate) (T : table) (owner : N) (pkg : name) :=
+  import_packages_loopH m hs T owner [] (prefixes pkg).
+
+(* checkFileLocked: every colliding name is reported until the handler returns an error *)
+Fixpoint check_symsH (m : hmode) (hs : hstate) (syms : list name) (tbl : list (name * entry))
+  : hstate * option err :=
+  match syms with
+  | [] => (hs, None)
+  | x :: r =>
+    match sym_find x tbl with
+    | Some e => match handle m hs (ESym x (e_pkg e)) with
+                | (hs', Some er) => (hs', Some er)
+                | (hs', None) => check_symsH m hs' r tbl
+                end
+    | None => check_symsH m hs r tbl
+    end
+  end.
+
+(* importFile: check pass, then the gate handler.Error(), then the commit pass *)
+Definition import_file_nodeH (m : hmode) (hs : hstate) (T : table) (p : name) (fid : N) (syms : list name)
+  : table * hstate * bool * res :=
+  let nd := get_node T p in
+  if mem_N fid (n_files nd) then (T, hs, false, Ok)
+  else match check_symsH m hs syms (n_symbols nd) with
+       | (hs1, Some e) => (T, hs1, false, Err e)
+       | (hs1, None) =>
+         match handler_error m hs1 with
+         | Some e => (T, hs1, false, Err e)
+         | None => (set_node T p (add_file (commit_syms nd fid syms) fid), hs1, true, Ok)
+         end
+       end.
+
+Definition of_handle (T : table) (x : hstate * option err) : table * hstate * res :=
+  match x with
+  | (hs', Some er) => (T, hs', Err er)
+  | (hs', None) => (T, hs', Ok)
+  end.
+
+Definition add_extensionH (m : hmode) (hs : hstate) (T : table) (pkg mn : name) (t : Z) (o : N)
+  : table * hstate * res :=
+  if negb (name_eqb pkg []) && negb (proper_prefix pkg mn) then of_handle T (handle m hs EExtPkg)
+  else match get_package T pkg true with
+       | None => of_handle T (handle m hs ENoPkg)
+       | Some p =>
+         let nd := get_node T p in
+         match ext_find mn t (n_exts nd) with
+         | Some _ => of_handle T (handle m hs (EExt mn t))
+         | None => (set_node T p (add_ext nd mn t o), hs, Ok)
+         end
+       end.
+
+Fixpoint add_extsH (m : hmode) (hs : hstate) (T : table) (o : N) (exts : list (name * name * Z))
+  : table * hstate * res :=
+  match exts with
+  | [] => (T, hs, Ok)
+  | (pkg, mn, t) :: r =>
+    match add_extensionH m hs T pkg mn t o with
+    | (T', hs', Ok) => add_extsH m hs' T' o r
+    | other => other
+    end
+  end.
+
+Fixpoint importH (m : hmode) (f : file) (T : table) (hs : hstate) : table * hstate * res :=
+  match f with
+  | File fid pkg deps syms exts =>
+    match import_packagesH m hs T fid pkg with
+    | (T1, hs1, PkgErr e) => (T1, hs1, Err e)
+    | (T1, hs1, PkgOk None) => (T1, hs1, Ok)
+    | (T1, hs1, PkgOk (Some p)) =>
+      if mem_N fid (n_files (get_node T1 p)) then (T1, hs1, Ok)
+      else
+        match (fix import_deps (ds : list file) (T : table) (hs : hstate) : table * hstate * res :=
+                 match ds with
+                 | [] => (T, hs, Ok)
+                 | d :: r => match importH m d T hs with
+                             | (T', hs', Ok) => import_deps r T' hs'
+                             | other => other
+                             end
+                 end) deps T1 hs1 with
+        | (T2, hs2, Err e) => (T2, hs2, Err e)
+        | (T2, hs2, Ok) =>
+          match import_file_nodeH m hs2 T2 p fid syms with
+          | (T3, hs3, _, Err e) => (T3, hs3, Err e)
+          | (T3, hs3, false, Ok) => (T3, hs3, Ok)
+          | (T3, hs3, true, Ok) => add_extsH m hs3 T3 fid exts
+          end
+        end
+    end
+  end.
+
+Fixpoint import_listH (m : hmode) (ds : list file) (T : table) (hs : hstate) : table * hstate * res :=
+  match ds with
+  | [] => (T, hs, Ok)
+  | d :: r => match importH m d T hs with
+              | (T', hs', Ok) => import_listH m r T' hs'
+              | other => other
+              end
+  end.
+
+(* one operation with a fresh handler: (table, what was reported, what was returned) *)
+Inductive ansH := AHRes (reported : list err) (r : res) | AHLook (o : option N).
+
+Definition do_opH (m : hmode) (T : table) (o : op) : table * ansH :=
+  match o with
+  | OImport f => let '(T', hs, r) := importH m f T [] in (T', AHRes hs r)
+  | OAddExt pkg mn t ow => let '(T', hs, r) := add_extensionH m [] T pkg mn t ow in (T', AHRes hs r)
+  | OLookup n => (T, AHLook (lookup T n))
+  | OLookupExt mn t => (T, AHLook (lookup_ext T mn t))
+  end.
+
+Fixpoint run_opsH (m : hmode) (T : table) (ops : list op) : table * list ansH :=
+  match ops with
+  | [] => (T, [])
+  | o :: r => let '(T', a) := do_opH m T o in
+              let '(T'', l) := run_opsH m T' r in (T'', a :: l)
+  end.
+
+(* an operation failed: it reported or returned an error *)
+Fixpoint any_failH (l : list ansH) : bool :=
+  match l with
+  | [] => false
+  | AHRes [] Ok :: r => any_failH r
+  | AHRes _ _ :: _ => true
+  | AHLook _ :: r => any_failH r
+  end.
+
+Fixpoint observeH (m : hmode) (T : table) (q : query) : ansH :=
+  match q with
+  | QLookup n => AHLook (lookup T n)
+  | QLookupExt mn t => AHLook (lookup_ext T mn t)
+  | QImport f => let '(_, hs, r) := importH m f T [] in AHRes hs r
+  | QAfter o q' => observeH m (fst (do_opH m T o)) q'
+  end.
+
+(* the guard of the partial theorems, for either kind of handler *)
+Definition deps_settledH (m : hmode) (T : table) (f : file) : Prop :=
+  (exists p, import_packagesH m [] T (ffid f) (fpkg f) = (T, [], PkgOk (Some p))) /\
+  (forall d, In d (fdeps f) -> importH m d T [] = (T, [], Ok)).
 
 (* the guard under which the pinned code does leave the table unchanged: the packages of the
    file are registered and importing each of its dependencies changes nothing *)
@@ -853,7 +1045,7 @@ Definition err_eqb (a b : err) : bool :=
   match a, b with
   | ESym n p, ESym n' p' => name_eqb n n' && Bool.eqb p p'
   | EExt m t, EExt m' t' => name_eqb m m' && Z.eqb t t'
-  | EExtPkg, EExtPkg | ENoPkg, ENoPkg => true
+  | EExtPkg, EExtPkg | ENoPkg, ENoPkg | EInvalid, EInvalid => true
   | _, _ => false
   end.
 Definition res_eqb (a b : res) : bool :=
@@ -919,12 +1111,46 @@ Fixpoint steps_ok (imp : file -> table -> table * res) (opp : op -> prog ans)
   | _, _ => false
   end.
 
+Definition errs_eqb (a b : list err) : bool :=
+  (fix go (a b : list err) : bool :=
+     match a, b with
+     | [], [] => true
+     | x :: a', y :: b' => err_eqb x y && go a' b'
+     | _, _ => false
+     end) a b.
+Definition ansH_eqb (a b : ansH) : bool :=
+  match a, b with
+  | AHRes h r, AHRes h' r' => errs_eqb h h' && res_eqb r r'
+  | AHLook x, AHLook y => optN_eqb x y
+  | _, _ => false
+  end.
+
+Record stepobsH := mkStepObsH {
+  soh_ans : ansH;
+  soh_dump : list (name * node);
+  soh_looks : list (name * option N);
+  soh_elooks : list (name * Z * option N) }.
+
+Fixpoint steps_okH (m : hmode) (T : table) (ops : list op) (obs : list stepobsH) : bool :=
+  match ops, obs with
+  | [], [] => true
+  | o :: r, b :: rb =>
+    let '(T', a) := do_opH m T o in
+    ansH_eqb a (soh_ans b) && dump_eqv T' (soh_dump b) && looks_ok T' (soh_looks b) (soh_elooks b)
+    && steps_okH m T' r rb
+  | _, _ => false
+  end.
+
 Inductive sym_case :=
 (* a sequential history on a fresh table: operations and what was observed after each *)
 | CSeq (ops : list op) (obs : list stepobs)
 (* a set of files imported on a fresh shared table, in parts (sequentially or concurrently):
    was any collision reported, and, when none was, the final lookups *)
-| CPart (fs : list file) (any_error : bool) (looks : list (name * option N)) (elooks : list (name * Z * option N)).
+| CPart (fs : list file) (any_error : bool) (looks : list (name * option N)) (elooks : list (name * Z * option N))
+(* a sequential history with an explicit handler kind: per operation what was reported and returned *)
+| CSeqH (m : hmode) (ops : list op) (obs : list stepobsH)
+(* a set of files imported part after part with the given handler kind: did any import fail *)
+| CPartH (m : hmode) (fs : list file) (any_fail : bool) (looks : list (name * option N)) (elooks : list (name * Z * option N)).
 
 Definition sym_chk_with (imp : file -> table -> table * res) (opp : op -> prog ans) (c : sym_case) : bool :=
   match c with
@@ -932,6 +1158,11 @@ Definition sym_chk_with (imp : file -> table -> table * res) (opp : op -> prog a
   | CPart fs anyerr looks elooks =>
     wf_universe_b (closure_list fs) && Bool.eqb (has_collision fs) anyerr
     && (anyerr || let '(T, _) := run_ops_with imp [] (map OImport fs) in looks_ok T looks elooks)
+  | CSeqH m ops obs => steps_okH m [] ops obs
+  | CPartH m fs anyfail looks elooks =>
+    wf_universe_b (closure_list fs) && Bool.eqb (has_collision fs) anyfail
+    && (let '(T, l) := run_opsH m [] (map OImport fs) in
+        Bool.eqb (any_failH l) anyfail && (anyfail || looks_ok T looks elooks))
   end.
 (* one checker per state of the two proposed repairs (read lock in the lookups; extension pre-check) *)
 Definition sym_chk := sym_chk_with import op_prog.                      (* neither *)
